@@ -57,7 +57,7 @@ JudgePair(k, ao, ac, r, sy) ==
    IN IF ~(sy /\ eqs) THEN {}
       ELSE IF ~def THEN {<<"U", <<>>>>}
       ELSE (IF r.eq # "T" THEN {<<"eq", <<r.eq>>>>} ELSE {})
-           \cup (IF r.eqr # "T" THEN {<<"eq-rev", <<r.eqr>>>>} ELSE {})
+           \cup (IF r.eqr \notin {"T", "-"} THEN {<<"eq-rev", <<r.eqr>>>>} ELSE {})   \* "-" = not observed
            \cup (IF r.keq # "T" THEN {<<"kind", <<r.keq>>>>} ELSE {})
            \cup (IF r.heq # "T" THEN {<<"hash", <<r.heq>>>>} ELSE {})
            \cup (IF r.do # r.dc THEN {<<"proj", <<>>>>} ELSE {})
